@@ -13,6 +13,7 @@
 #include <type_traits>  // std::is_same
 
 #include "../Util/CompInfo.h"
+#include "../Util/VerifHooks.h"
 
 namespace Spectra {
 
@@ -64,6 +65,9 @@ struct ScalarOp<std::complex<RealScalar>>
 template <typename Scalar = double>
 class BKLDLT
 {
+#ifdef SPECTRA_VERIF
+    friend struct ::SpectraVerifAccess;
+#endif
 private:
     // The real part type of the matrix element
     using RealScalar = typename Eigen::NumTraits<Scalar>::Real;
